@@ -207,7 +207,7 @@ def _fp(x):
 
 def has_history(d):
     if isinstance(d, dict):
-        if d.get("Sig0") is not None or d.get("upd") is not None:
+        if d.get("Sig0") is not None or d.get("upd") is not None or d.get("twice"):
             return True
         return any(has_history(v) for v in d.values())
     if isinstance(d, list):
@@ -336,6 +336,8 @@ def obs_all(ob, o, xs, tag=""):
 def gen_pdfv(g, R, D, diag=False, ctor=None, history=False):
     d = C.gen_pdf(g, R, D, diag=diag)
     d["ctor"] = ctor or g.choice(["Sigma", "Sigma", "Sigma+Lambda", "all"])
+    if g.randint(0, 5) == 0:
+        d["f32_mu"] = True          # the mean handed over as a float32 array
     if history and g.randint(0, 3) == 0:
         # built with OTHER components at some positions, which update(idx, new) then replaces in place
         k = g.randint(1, R)
@@ -366,7 +368,10 @@ def impl_pdfv(p):
         return _MEMO[key]
     if p.get("upd") is not None:
         jnp = gtlib.impl()["jnp"]
-        o = _build_pdfv(_pdf_before(p))
+        pb = _pdf_before(p)
+        if p.get("f32_mu") and not all(Fr(float(jnp.float32(float(v)))) == v for m in p["mu"] for v in m):
+            pb["f32_mu"] = False      # update() writes into the array it finds: a float32 mean would round the new float64 values
+        o = _build_pdfv(pb)
         mut = lambda o=o: o.update(jnp.array(p["upd"]["idx"]), _build_pdfv(_pdf_new(p)))
         if _MODE[0] == "before":
             _MEMO[key] = o
@@ -385,6 +390,10 @@ def _build_pdfv(p):
     jnp = I["jnp"]
     cls = I["pdf"].GaussianDiagPDF if p.get("diag") else I["pdf"].GaussianPDF
     kw = dict(Sigma=jarr(p["Sig"]), mu=jarr(p["mu"]))
+    if p.get("f32_mu") and all(Fr(float(jnp.float32(float(v)))) == v for m in p["mu"] for v in m):
+        # the mean as a float32 array (every value is exactly representable): results must still be float64-exact, the
+        # narrower dtype must not be inherited downstream  (an integer-typed mean is outside the library's Float[...] contract)
+        kw["mu"] = jnp.array(gtlib.fl(p["mu"]), dtype=jnp.float32)
     if p.get("ctor", "Sigma") in ("Sigma+Lambda", "all"):
         kw["Lambda"] = jarr([finv(S) for S in p["Sig"]])
     if p.get("ctor") == "all":
@@ -396,6 +405,10 @@ def coq_pdfv(p):
     if p.get("upd") is not None:
         return "(pdf_update %s %s %s)" % (gtlib.cints(p["upd"]["idx"]), coq_pdfv(_pdf_before(p)), coq_pdfv(_pdf_new(p)))
     ctor = p.get("ctor", "Sigma")
+    if p.get("diag") and p["D"] >= 30 and ctor == "Sigma":
+        # high-dimensional diagonal density: a compact literal (the dense one overflows coqc's stack)
+        dg = cseq([cvec([S[i][i] for i in range(p["D"])]) for S in p["Sig"]])
+        return "(@mk_pdf _ LQ true %d %d (fun r => mdiagv (lv (nth [::] %s r))) (lb2 %s) None None)" % (p["R"], p["D"], dg, cmat(p["mu"]))
     L = "None" if ctor == "Sigma" else "(Some (lb3 %s))" % cb3([finv(S) for S in p["Sig"]])
     h = "(Some (lh %s))" % cvec([fdet(S) for S in p["Sig"]]) if ctor == "all" else "None"
     return "(@mk_pdf _ LQ %s %d %d (lb3 %s) (lb2 %s) %s %s)" % (
@@ -412,6 +425,12 @@ def gen_scn(g, scn, **kw):
     """One rational case of scenario scn; shapes are passed in kw."""
     R, D = kw.get("R", 1), kw.get("D", 2)
     if scn == "ctor":          # every constructor combination, full and diagonal
+        if kw.get("highdim"):
+            # diagonal class, D = 40, variances ~ 1e-8 or 1e8: det underflows / overflows float64, ln det is ordinary
+            Dh = kw["highdim"]; sc = g.choice([Fr(1, 10 ** 8), Fr(10 ** 8)])
+            Sig = [[[(sc * g.randint(1, 3) if i == j else Fr(0)) for j in range(Dh)] for i in range(Dh)] for _ in range(R)]
+            p = dict(R=R, D=Dh, Sig=Sig, mu=[[Fr(g.randint(-1, 1)) for _ in range(Dh)] for _ in range(R)], diag=True, ctor="Sigma")
+            return dict(scn=scn, p=p, xs=[[Fr(0)] * Dh], highdim=True)
         p = gen_pdfv(g, R, D, diag=kw.get("diag", False), ctor=kw.get("ctor"), history=True)
         return dict(scn=scn, p=p, xs=g.mat(3, D))
     if scn == "measure_int":   # integral / log_integral(_light) / normalize / get_density of a measure
@@ -452,7 +471,12 @@ def gen_scn(g, scn, **kw):
     if scn == "set_y":
         c = gen_cond(g, cls, Rc, Dy, Dx)
         N = kw.get("N", 2) if cond_R(c) == 1 else cond_R(c)
-        return dict(scn=scn, c=c, ys=g.mat(N, c["Dy"]), xs=g.mat(3, c["Dx"]))
+        ys = g.mat(N, c["Dy"])
+        if g.randint(0, 4) == 0:
+            # an observation FAR from the model (tens of noise standard deviations): ln beta of the likelihood factor below -700
+            k = g.randint(0, N - 1)
+            ys[k] = [v + g.choice([-1, 1]) * Fr(g.randint(60, 120)) for v in ys[k]]
+        return dict(scn=scn, c=c, ys=ys, xs=g.mat(3, c["Dx"]))
     if scn in ("joint", "marg_t", "cond_t", "entropies"):
         c = gen_cond(g, cls, Rc, Dy, Dx)
         # p(x) is a full or (every third case, or when asked for) a diagonal density object
@@ -461,9 +485,10 @@ def gen_scn(g, scn, **kw):
         return dict(scn=scn, c=c, p=p, xs=g.mat(3, c["Dx"]), ys=g.mat(3, c["Dy"]))
     if scn == "kl":
         R0, R1 = kw.get("R0", R), kw.get("R1", R)
-        p0 = gen_pdfv(g, R0, D, history=True)
+        # either side may be a diagonal density object (KL(diagonal || full) and KL(full || diagonal) included)
+        p0 = gen_pdfv(g, R0, D, diag=(g.randint(0, 2) == 0), history=True)
         same = kw.get("same", False)
-        p1 = dict(p0) if same else gen_pdfv(g, R1, D, history=True)
+        p1 = dict(p0) if same else gen_pdfv(g, R1, D, diag=(g.randint(0, 2) == 0), history=True)
         return dict(scn=scn, p0=p0, p1=p1)
     raise ValueError(scn)
 
